@@ -17,8 +17,14 @@ Expected(e) ==
       [] e.fn = "Advertise" -> Advertise(e["in"])
       [] e.fn = "Reply" -> Reply(e["in"])
       [] e.fn = "Request" -> Request(e["in"], IF e.out.ok THEN e.out.v.xid ELSE <<0, 0, 0>>)   \* fresh transaction id
+\* a builder called with caller modifiers that supply options: whether the input is acceptable is decided on the input
+\* (a SOLICIT without client identifier is refused whatever the modifiers would add)
+AcceptedWithMods(e) == e.out.ok = (CASE e.args.builder = "Advertise" -> Advertise(e["in"]).ok
+                                     [] e.args.builder = "Reply" -> Reply(e["in"]).ok
+                                     [] OTHER -> Request(e["in"], <<0, 0, 0>>).ok)
 Agree(e) == /\ ~Has(e.out, "panic")
-            /\ IF e.fn = "DecapIs" THEN e.out.ok /\ e.out.v = e.args.want /\ Decap(e["in"]) = Ok(e.args.want)   \* the level itself, as it is now
+            /\ IF e.fn = "WithMods" THEN AcceptedWithMods(e) ELSE
+               IF e.fn = "DecapIs" THEN e.out.ok /\ e.out.v = e.args.want /\ Decap(e["in"]) = Ok(e.args.want)   \* the level itself, as it is now
                ELSE IF e.fn = "Wire" THEN e.out.ok /\ Same(e.out.v, e["in"])          \* a chain survives a trip over the wire
                ELSE LET x == Expected(e) IN e.out.ok = x.ok /\ (x.ok => e.out.v = x.v)
 
